@@ -1,7 +1,7 @@
 (** C17  Schema-prefixed encoding round-trips and rejects a foreign schema.
     Property theorems only; proofs live in WithSchemaFacts.v (on top of C01/C05). *)
 From Coq Require Import String List NArith ZArith.
-From Borsh Require Import Bytes Result Ty Ser De Entry Schema SchemaOf WithSchema WithSchemaFacts.
+From Borsh Require Import Bytes Result Ty Ser De Entry Schema SchemaOf WithSchema WithSchemaFacts SchemaOfSorted.
 Import ListNotations.
 Local Open Scope N_scope.
 Local Open Scope string_scope.
@@ -66,6 +66,41 @@ Theorem C17_container_canonical :
 Proof. exact container_codec_round_trip. Qed.
 Print Assumptions C17_container_canonical.
 
+
+(** * The ordering part is a theorem
+    [schema_of] lists its definitions in strictly ascending name order (the order they are
+    written in), so of "the container is a Rust value" only [container_fits] remains to be
+    assumed: every name is a UTF-8 [String] and every number fits its [u8]/[u64]/[i64] field. *)
+Theorem C17_definitions_ascending :
+  forall t sc, schema_of t = Ok sc -> sorted_keys (defs sc) = true.
+Proof. exact schema_of_sorted. Qed.
+Print Assumptions C17_definitions_ascending.
+
+Theorem C17_container_typed :
+  forall t sc, schema_of t = Ok sc -> container_fits sc = true ->
+    has_ty ty_container (container_to_val sc) = true.
+Proof. exact schema_container_typed. Qed.
+Print Assumptions C17_container_typed.
+
+Theorem C17_round_trip_fits :
+  forall (c : cfg) (t : ty) (v : val) (bs : bytes) (sc : container),
+    wf t = true -> has_ty t v = true -> schema_of t = Ok sc -> container_fits sc = true ->
+    try_to_vec_with_schema t v = Ok bs ->
+    try_from_slice_with_schema c t bs = Ok (logical t v).
+Proof. exact with_schema_round_trip_fits. Qed.
+Print Assumptions C17_round_trip_fits.
+
+Theorem C17_foreign_fits :
+  forall (c : cfg) (t u : ty) (v : val) (bs : bytes) (sct scu : container),
+    schema_of t = Ok sct -> schema_of u = Ok scu -> container_fits sct = true ->
+    container_to_val sct <> container_to_val scu ->
+    try_to_vec_with_schema t v = Ok bs ->
+    try_from_slice_with_schema c u bs = Err InvalidData MSchemaMismatch \/
+    exists m, from_slice c (TProd PTuple [ty_container; u]) bs = Err InvalidData m /\
+              try_from_slice_with_schema c u bs = Err InvalidData m.
+Proof. exact with_schema_foreign_fits. Qed.
+Print Assumptions C17_foreign_fits.
+
 (** Non-vacuity: a struct with a skipped field holding a derived enum with discriminants. *)
 Definition ex_enum : ty :=
   TSum (KEnum "E" ["A"; "B"] [5; 9])
@@ -85,7 +120,8 @@ Example C17_nonvacuous :
     logical ex_t ex_v <> ex_v /\
     container_to_val sc <> container_to_val se /\
     (exists m, try_from_slice_with_schema {| strict := true |} ex_enum bs = Err InvalidData m) /\
-    map fst (defs sc) = ["()"; "E"; "EA"; "EB"; "Option<E>"; "S"; "Vec<u8>"; "u8"].
+    map fst (defs sc) = ["()"; "E"; "EA"; "EB"; "Option<E>"; "S"; "Vec<u8>"; "u8"] /\
+    container_fits sc = true.
 Proof.
   split; [reflexivity|]. split; [reflexivity|].
   eexists. eexists. eexists. split; [vm_compute; reflexivity|]. split; [vm_compute; reflexivity|].
@@ -93,5 +129,5 @@ Proof.
   split; [vm_compute; reflexivity|]. split; [vm_compute; reflexivity|].
   split; [vm_compute; reflexivity|]. split; [vm_compute; discriminate|].
   split; [vm_compute; discriminate|]. split; [eexists; vm_compute; reflexivity|].
-  vm_compute. reflexivity.
+  split; vm_compute; reflexivity.
 Qed.
